@@ -218,6 +218,12 @@ def e7_e8(rep, src):
         floor=2,
         necessary="translators that drop the CTE column list (BigQuery, Hive) rely on item aliases: an un-aliased item exposes the input column name and the next CTE refers to a non-existent column",
     )
+    rep.rule(
+        "E16",
+        "sibling agreement of FromRelationVisitor::{map, reduce, join, set}: the name under which a node's CTE is defined goes through translator.identifier(..), as do all references to it (table_factor)",
+        floor=4,
+        necessary="a CTE defined as `set_x` and referred to as \"set_x\" is another name for the reader (and for engines that fold unquoted identifiers): the rendered set operation is rejected with 'Unknown table'",
+    )
     fns = {f.name: f for f in src.find_fns(file=RSQL, self_ty_re=r"^FromRelationVisitor", trait_re=r"^Visitor")}
     for nm in ("map", "reduce", "join", "set"):
         if nm not in fns:
@@ -237,6 +243,11 @@ def e7_e8(rep, src):
             rep.violation("E8", key + "@columns", "the CTE column list is not derived from the node's schema: %s" % show(ccols, 100), where)
         if "name" not in comp_mentions(cname, node):
             rep.violation("E7", key + "@name", "the CTE is not named after the node: %s" % show(cname, 80), where)
+        # E16: the definition of the CTE is spelled like its references (table_factor quotes the name through translator.identifier)
+        via_ident = any(m["m"] == "identifier" and "translator" in show(m["recv"], 0) for m in find(cname, "mcall"))
+        rep.instance("E16", key + "@cte-name", {"node": nm, "name": show(cname, 90), "through_translator_identifier": via_ident})
+        if not via_ident:
+            rep.violation("E16", key + "@cte-name", "the CTE of a %s node is defined under the bare name `%s` while parents refer to it through translator.identifier (quoted): the rendered query cannot be read back" % (nm, show(cname, 60)), where)
         if nm == "set":
             so = cq if cq["k"] == "mcall" and cq["m"] == "set_operation" else None
             if so is None or len(so["args"]) != 5:
